@@ -147,6 +147,47 @@ def record(job):
     return recs
 
 
+def _triple(s, c, e):
+    if c == 0:
+        return {'s': int(s), 'c': 0, 'e': 0}
+    while c % 2 == 0:
+        c //= 2
+        e += 1
+    return {'s': int(s), 'c': c, 'e': e}
+
+
+def wide_conversions():
+    """float()/int()/as_rational() on values whose exponents are far outside TLC's integers."""
+    recs = []
+    exps = list(range(-1082, -1068)) + list(range(-1030, -1018)) + list(range(965, 1026)) + [-60, -1, 0, 40, 52, 53, 70]
+    for c in (1, 3, 5, 7, 13):
+        for e in exps:
+            for s in (False, True):
+                for mk in (lambda: RealFloat(s=s, c=c, exp=e), lambda: Float(s=s, c=c, exp=e), lambda: Float(s=s, c=c << 2, exp=e - 2)):
+                    x = mk()
+                    xt = _triple(s, c, e)
+                    for name, fn in (('float', float), ('int', int)):
+                        try:
+                            y = fn(x)
+                            if isinstance(y, float):
+                                if y != y or y in (float('inf'), float('-inf')):
+                                    out = {'s': 0, 'c': -1, 'e': 0}
+                                else:
+                                    n, d = abs(y).as_integer_ratio()
+                                    import math
+                                    out = _triple(math.copysign(1.0, y) < 0, n, -(d.bit_length() - 1))
+                            else:
+                                out = _triple(y < 0 or (y == 0 and s), abs(y), 0)
+                                if y == 0:
+                                    out = {'s': int(s), 'c': 0, 'e': 0}
+                            if out['c'] >= (1 << 24):
+                                continue
+                        except Exception as ex:     # noqa: BLE001
+                            out = {'err': type(ex).__name__}
+                        recs.append({'op': 'conv_dy', 'conv': name, 'args': [], 'x': xt, 'out': out, 'at': [type(x).__name__]})
+    return recs
+
+
 def hashtable(tier: str):
     rows = []
     for (t, v) in pool(tier):
@@ -170,6 +211,7 @@ def run(tier: str) -> int:
     jobs = [(i, min(n, i + step), tier) for i in range(0, n, step)]
     recs = [r for rs in core.pool_map(record, jobs, chunksize=1) for r in rs]
     recs.append(hashtable(tier))
+    recs.extend(wide_conversions())
     for i, r in enumerate(recs):
         r['tid'] = i
     out = core.validate_trace('NumberOpsTrace', recs)
